@@ -215,6 +215,39 @@ def rule_effect(ctx):
     ctx.ob(RA, "summary::view-tracking-control", True, "view tracking active", "", nontrivial=False)
 
 
+def rule_pair_count(ctx):
+    import ast
+    """the release removes as many rows as the acquire added"""
+    from ppsa.astutil import norm, inline_locals
+    R = "PAIR-COUNT"
+    ctx.rule(R, "_add_dcline_gens creates two generators for every row of net.dcline (loop over the whole table, two create_gen calls); "
+                "_clean_up removes the last 2 * len(net.dcline) generators whenever the table is not empty: both count all rows, neither "
+                "filters by in_service")
+    fa = ctx.repo.func("pandapower.auxiliary:_add_dcline_gens")
+    loops = [n for n in fa.node.body if isinstance(n, ast.For)]
+    ok = False
+    det = "loop not found"
+    if loops:
+        it = norm(loops[0].iter, 80).replace(" ", "")
+        ncreate = sum(1 for x in ast.walk(loops[0]) if isinstance(x, ast.Call) and norm(x.func, 30).endswith("create_gen"))
+        cond = [x for x in loops[0].body if isinstance(x, ast.If) and any(isinstance(y, ast.Call) and norm(y.func, 30).endswith("create_gen") for y in ast.walk(x))]
+        ok = it == "net.dcline.itertuples()" and ncreate == 2 and not cond and not any(isinstance(x, (ast.Continue, ast.Break)) for x in ast.walk(loops[0]))
+        det = f"for ... in {it}: {ncreate} create_gen calls, conditional: {bool(cond)}"
+    ctx.ob(R, "pandapower.auxiliary::_add_dcline_gens::two-per-row", ok, det, fa.loc())
+    fc = ctx.repo.func("pandapower.auxiliary:_clean_up")
+    blk = next((n for n in fc.node.body if isinstance(n, ast.If) and "dcline" in norm(n.test, 60)), None)
+    ok = False
+    det = "dcline block not found"
+    if blk is not None:
+        test = norm(inline_locals(fc.node, blk.test), 80).replace(" ", "").replace('"', "'")
+        sl = next((st for st in blk.body if isinstance(st, ast.Assign) and "net.gen.index[" in norm(st.value, 120).replace(" ", "")), None)
+        v = norm(inline_locals(fc.node, sl.value), 160).replace(" ", "").replace('"', "'") if sl is not None else ""
+        ok = test in ("len(net['dcline'])>0", "len(net.dcline)>0") and v in ("net.gen.index[len(net.gen)-len(net.dcline)*2:]", "net.gen.index[len(net.gen)-2*len(net.dcline):]",
+                                                                             "net.gen.index[len(net.gen)-len(net['dcline'])*2:]")
+        det = f"if {test}: dc_gens = {v}"
+    ctx.ob(R, "pandapower.auxiliary::_clean_up::two-per-row", ok, det, fc.loc(blk) if blk is not None else fc.loc())
+
+
 def run(ctx):
     ctx.assume("calls that cannot be resolved (dynamic attributes, user callbacks) are assumed to have no effect on user "
                "tables and to be able to raise")
@@ -230,6 +263,7 @@ def run(ctx):
     if n < 3:
         ctx.fail("PAIR-BB: estimation entry points no longer reach set/reset_bb_switch_impedance")
     rule_effect(ctx)
+    rule_pair_count(ctx)
     # PAIR of the temporary outage of the contingency analysis (the listed exception of the EFFECT rule for ?.in_service is
     # licensed only because the store is restored in a finally block: decided here, shared with C14/C15)
     from rules import _contingency as cg
@@ -260,6 +294,8 @@ def variants(repo):
     opf = "pandapower/optimal_powerflow.py"
     V = Variant
     return [
+        V("clean-up counts only in-service dclines", "pandapower/auxiliary.py", in_function("_clean_up", lambda s: s.replace('    if len(net["dcline"]) > 0:\n        dc_gens = net.gen.index[(len(net.gen) - len(net.dcline) * 2):]', '    n_dcline = np.count_nonzero(net["dcline"]["in_service"].values)\n    if n_dcline > 0:\n        dc_gens = net.gen.index[(len(net.gen) - n_dcline * 2):]')), "PAIR-COUNT"),
+        V("aux gens only for in-service dclines", "pandapower/auxiliary.py", replace_once("    for dctab in net.dcline.itertuples():", "    for dctab in net.dcline[net.dcline.in_service].itertuples():"), "PAIR-COUNT"),
         V("contingency restore on normal path only", "pandapower/contingency/contingency.py", in_function("run_contingency", lambda s: s.replace("            finally:\n                net[element].at[i, 'in_service'] = True\n", "            net[element].at[i, 'in_service'] = True\n", 1)), "PAIR-OUTAGE"),
         V("vk view write back", bb, replace_once("            vk_value = vk_value.copy()\n", ""), "ALIASWRITE::pandapower.build_branch::_get_vk_values_from_table"),
         V("1ph double acquire back", sc, replace_once("    # pos. seq bus impedance (_init_ppc adds the auxiliary elements)\n", "    _add_auxiliary_elements(net)\n"), "_calc_sc_1ph"),
